@@ -87,6 +87,14 @@ def run(tier, seed):
             for n in (70, 600, 4000, 16000, 32700):
                 plans.append({"entry": e, "raw": [0x30, 0x80] * n})
                 plans.append({"entry": e, "raw": [0x30, 0x80, 0xa0, 0x80] * (n // 2)})
+        for e in ("ts_challenge", "ts_validate"):
+            for k2 in (16, 24, 28, 32, 40, 48, 56, 60, 63, 64):
+                for unit in ([0x30, 0x80], [0x30, 0x80, 0xa0, 0x80]):
+                    plans.append({"entry": e, "raw": unit * (k2 * 2 // len(unit))})
+            # identifier octets in long / non-minimal / primitive form in front of absurd lengths
+            for tg in ([0x30], [0x3f, 0x10], [0x3f, 0x80, 0x10], [0x1f, 0x80, 0x10], [0x1f, 0x10], [0xbf, 0x80, 0x00], [0x3f, 0x80]):
+                for lf in ([0x88] + [0xff] * 8, [0x84, 0xff, 0xff, 0xff, 0xff], [0x80], [20], [0x89] + [0xff] * 9):
+                    plans.append({"entry": e, "raw": tg + lf + [0xa0, 3, 2, 1, 2] + [0x41] * 20})
         for i, p in enumerate(plans):
             p["id"] = "n%d" % i
         plans.append({"id": "selftest", "entry": "challenge", "layer": "all", "faults": [{"op": "set8", "off": 3, "v": 0}]})
